@@ -69,17 +69,18 @@ P = {
 
 # as-built additions (rounds 8-15 of seeded changes; DESIGN.md section 8)
 ADD = {
- "C01": " Plus, per table: explicit sweep programs (every size of every variable-size entry over a contiguous range, continuation / identical / overlapping / descending argument chains, strings with blank / NUL heads and tails, foreign handles, setters overwritten with other values), a byte-sum sweep (one argument per entry kind through all 256 low-byte values), every argument all-zero / all-ones beside ordinary neighbours, and a second DFS over one operation per kind to depth 4..16.",
- "C02": " The sweep programs, byte-sum sweep and kind-level DFS of C01 are judged here too.",
- "C03": " The sweep programs, byte-sum sweep and kind-level DFS of C01 are judged here too.",
- "C04": " The entry layer also uses all-arguments-equal, lower-case-letter and blank fills; the stand-alone structures (PCI-config GAS, typed GenericAddress, HEST error status block and data entry) are compared with their specification layouts; the sweep programs of C01 are judged here too.",
- "C05": " The sweep programs of C01 (sizes, strings, overwritten next_level, foreign parent) are judged here too.",
+ "C01": " Plus, per table: explicit sweep programs (every size of every variable-size entry over a contiguous range, continuation / identical / overlapping / descending argument chains, strings with blank / NUL heads and tails, foreign handles, setters overwritten with other values), a byte-sum sweep (one argument per entry kind through all 256 low-byte values), every argument all-zero / all-ones beside ordinary neighbours, the value sweep (every numeric or byte-array argument of every entry kind, shape and constructor through util::value_set x the enumerated arguments; argument pairs equal / adjacent / doubled; argument = entry position), and a second DFS over one operation per kind to depth 4..16.",
+ "C02": " The sweep programs, byte-sum sweep, value sweep and kind-level DFS of C01 are judged here too.",
+ "C03": " The sweep programs, byte-sum sweep, value sweep and kind-level DFS of C01 are judged here too.",
+ "C04": " The entry layer also uses all-arguments-equal, lower-case-letter and blank fills; the stand-alone structures (PCI-config GAS, typed GenericAddress, HEST error status block and data entry) are compared with their specification layouts; the sweep programs and the value sweep of C01 are judged here too.",
+ "C05": " The sweep programs of C01 (sizes, strings, overwritten next_level, foreign parent) and its value sweep are judged here too.",
  "C06": " Plus every sequence of <=3 (thorough 4) field entries over named/reserved x 8 widths.",
  "C07": " Plus every call site with every name form (1, 2, 3, 10 segments, rooted or not) and a directly-written 64-bit child, every container with 0..=300 and up to 65 537 small children, and the field-entry sequences of C06.",
  "C08": " Plus every combination of {00,01,80,ff} over the 8 bytes, every (high, low) dword pair over 22 values, and ResourceTemplate children of every total size 0..70000.",
  "C09": " Plus every string over {name character, dot} up to 14 and over {name character, dot, backslash} up to 10 characters, and well-formed paths with blank / tab / newline / NUL at their edges.",
- "C11": " Plus the CFMWS closure for every interleave-ways value x arithmetic and the TCPA closure for four address spaces of its address arguments.",
- "C12": " Plus every HMAT shape of a 34x34 (thorough 64x64) grid and every SLIT size 1..40 (100) and 128..400 with every cell assigned in three orders, and every locality type x data type x transfer size with untouched cells.",
+ "C10": " Plus value sweeps: Register over 13 spaces x every width x offsets x every access size, IO over every alignment x length, value-set minima x 5-6 maxima for every address-space kind with and without translation.",
+ "C11": " Plus the value sweep of C01 over every option-bearing entry (every shape, every numeric argument through util::value_set x the enumerated arguments), the CFMWS closure for every interleave-ways value x arithmetic and the TCPA closure for four address spaces of its address arguments.",
+ "C12": " Plus every HMAT shape of a 34x34 (thorough 64x64) grid and every SLIT size 1..40 (100) and 128..400 with every cell assigned in three orders, and every locality type x data type x transfer size with untouched cells, all 65 536 cell values in six program forms on three shapes, and all 256 x 256 SLIT distance pairs.",
  "C13": " Plus state-relative writes (Length := current length + k, a copied header), update_checksum, generic write/append of GenericAddress, and lockstep programs on large tables (slices of every size to 1100 and around 4 KiB / 64 KiB, every initial length 36..1100, byte-by-byte growth to 5000 bytes).",
  "C14": " Plus the stand-alone structures and fills of lower-case letters / blanks in the raw-form comparison.",
  "C15": " Plus strings with NUL / blank / quote / non-ASCII characters at either end, and PackageBuilder values obtained through Default and reused after core::mem::take.",
